@@ -233,11 +233,13 @@ class Builder:
         return sa.bindparam(nm, v, type_=sa.String) if self.embed else sa.bindparam(nm, type_=sa.String)
 
     # ---- SELECT pieces ----------------------------------------------
-    def term(self, T, depth=0):
+    def term(self, T, depth=0, force=None):
         sa, r, c, u = self.sa, self.r, self.case, self.env.u.alias("ux")
         avals = [row[1] for row in T_ROWS]
         k = r.choice(["gt", "lt", "between", "in_anon", "in_named", "in_empty", "in_tuple", "str_ne",
                       "like", "subq_in", "exists", "gt", "in_anon", "in_named", "in_litexec"])
+        if force is not None:
+            k = force
         if k == "gt":
             return T.c.a > self.bi("a")
         if k == "lt":
@@ -425,6 +427,25 @@ class Builder:
             stmt = sa.union_all(s1, s2).order_by("id", "e")
             stmt = self.limit_offset(stmt)
         c.stmt = stmt
+        return c
+
+    def shared_subquery(self):
+        """one subquery / CTE carrying expanding parameters (scalar and tuple IN), referenced by both
+        branches of a UNION: every one of its binds is rendered twice"""
+        sa, r, c, t = self.sa, self.r, self.case, self.env.t
+        c.kind = "select-shared-subquery"
+        c.features.update({"union", "repeated_bind"})
+        conds = [self.term(t, force=r.choice(["in_tuple", "in_tuple", "in_anon", "in_named"])), self.term(t, force=r.choice(["in_anon", "gt", "between"]))]
+        inner = sa.select(t.c.id, t.c.a, t.c.b).where(sa.or_(*conds) if r.random() < 0.5 else sa.and_(*conds))
+        if r.random() < 0.5:
+            c.features.add("cte")
+            T = inner.cte("shared")
+        else:
+            c.features.add("subquery")
+            T = inner.subquery("shared")
+        s1 = sa.select(T.c.id, (T.c.a + self.bi()).label("e"))
+        s2 = sa.select(T.c.id, (T.c.b + self.bi()).label("e")).where(T.c.a > self.bi("a"))
+        c.stmt = sa.union_all(s1, s2).order_by("id", "e")
         return c
 
     def text(self):
@@ -639,5 +660,5 @@ class Builder:
         return c
 
 
-KINDS = ["probe", "select", "select", "select", "select", "text", "insert", "update", "delete",
+KINDS = ["probe", "select", "select", "select", "select", "shared_subquery", "text", "insert", "update", "delete",
          "insert_from_select", "executemany_insert", "executemany_insert", "executemany_update"]
